@@ -1,6 +1,6 @@
 """C09 move / rotate / scale transform the region exactly as the affine map does.
 
-History explorer: all sequences (length <= 2 quick, <= 3 thorough) over an alphabet of 13
+History explorer: all sequences (length <= 2 quick, <= 3 thorough) over an alphabet of 14
 transformations on each shape of a kind/type alphabet; in every reached state the real
 object's control points are compared with the reference image of the original control
 points (Bezier curves are affine invariant, so this decides membership of T(p) for all p)."""
@@ -18,15 +18,15 @@ ID = "C09"
 LEVEL = "model_checking"
 RULE = (
     "per shape (P: sqA, triA, L, U cw; PC: hollow, two, xtwo, xhollow; each int / Fraction / float; curved: c8, lens, "
-    "cubic blob, curved ring, cubics with a doubled and with a zero-length handle) breadth-first search over all sequences of length <= 2 (thorough 3) of 13 transformations "
-    "(move by (3,-2), (1/3,2/7), (0.5,-1.25), (1e6,0), tuple form, Point2D form; scale by (2,3), (1/2,1/3), (0.5,2.0); rotate by pi/2, "
+    "cubic blob, curved ring, cubics with a doubled and with a zero-length handle) breadth-first search over all sequences of length <= 2 (thorough 3) of 14 transformations "
+    "(move by (3,-2), (1/3,2/7), (0.5,-1.25), (1e6,0), the tiny rational vector (1e-9,-1e-9), tuple form, Point2D form; scale by (2,3), (1/2,1/3), (0.5,2.0); rotate by pi/2, "
     "0.3, 90 deg, -37.5 deg), states de-duplicated on the full representation; invariant in every state: every control "
     "point equals the exact affine image of the original (exactly, with Fraction type, for rational data under "
     "move/scale; 1e-9 relative otherwise), junction sharing and orientation preserved, call returns the same object, "
     "moments of order <= 2 equal the reference moments of the image (hence area = |det| x area), T(p) in S iff p was "
     "in S on a 5x5 grid (depth 1), and the inverse sequence restores a shape == to the original."
 )
-ASSUMPTIONS = ["rotation reference uses the exact rational value of the float cos/sin the library computes with numpy"]
+ASSUMPTIONS = ["moments of rational shapes are compared exactly while every coordinate denominator is <= 1e7, and with the float tolerance (1e-8 area, 1e-6 higher moments; still of Fraction type) beyond: exact integrals next to the 1e-9 coordinate resolution are the subject of C13 (known finding F19)", "rotation reference uses the exact rational value of the float cos/sin the library computes with numpy"]
 CASE_TIMEOUT = 1500
 
 TRANSFORMS = [
@@ -34,6 +34,7 @@ TRANSFORMS = [
     ["move", "1/3", "2/7"],
     ["move", 0.5, -1.25],
     ["move", 1000000.0, 0],
+    ["move", "1/1000000000", "-1/1000000000"],
     ["movet", -2, 5],
     ["movep", "5/2", -1],
     ["scale", 2, 3],
@@ -234,8 +235,14 @@ def run_history(e, hist, check_inverse=True, deep=True):
                 fails.append(("moment-noresult", str(got)))
                 break
             want = reg.boundary_moment(a, b)
-            if rational:
+            fine = (rational and max(q.denominator for c in reg.curves() for sg in c.segs for pt in sg for q in pt) <= 10**7)
+            if fine:
                 ok = rg.ex(got) == want
+            elif rational:
+                # coordinates near the library's 1e-9 coordinate resolution: the exactness of
+                # integrals there is C13's subject (known finding F19); here |det| x area only
+                # (temporaries are rounded to denominators <= 1e9, i.e. by up to 5e-10: the float tolerance applies)
+                ok = rg.typecode(got) in ("i", "F") and abs(rg.ex(got) - want) <= (F(1, 10**8) if a + b == 0 else F(1, 10**6)) * max(abs(want), scale ** (a + b + 2) * F(1, 10**4))
             else:
                 ok = abs(rg.ex(got) - want) <= (F(1, 10**8) if a + b == 0 else F(1, 10**6)) * max(abs(want), scale ** (a + b + 2) * F(1, 10**4))
             if not ok:
